@@ -383,6 +383,8 @@ def run(rep, tier: str, seed: int) -> None:
     per_cat: Dict[str, Dict[str, int]] = {}
     raises_examples: List[str] = []
     case_no = 0
+    n_shared_spec_deviation = 0
+    shared_examples: Dict[str, str] = {}
     for res in results:
         task = res["task"]
         label = f"{task['grammar']}/{task['tid']}/{task['variant']}"
@@ -412,6 +414,14 @@ def run(rep, tier: str, seed: int) -> None:
                                   f"{counts['skipped_closed_trees_after_timeouts']} closed trees skipped afterwards")
         strategy = "qe" if task["variant"] != "plain" else "legacy"
         for v in res["violations"]:
+            if v["kind"].startswith("differs-from-spec-verdict-of-completion"):
+                # evaluate() gives the open tree and its completion the SAME verdict, which is
+                # what C06 states; that this common verdict deviates from the specification is
+                # the closed-tree defect C03 reports (DESIGN.md 11.2), counted here only
+                n_shared_spec_deviation += 1
+                shared_examples.setdefault(signature(strategy, task["cat"], v),
+                                           f"{task['grammar']}: {task['text']!r} on {v['closed_text']!r}: {v['detail']}")
+                continue
             rep.violation(
                 signature(strategy, task["cat"], v),
                 f"grammar={task['grammar']} constraint={task['text']!r} open tree={v['open_text']!r} "
@@ -420,6 +430,9 @@ def run(rep, tier: str, seed: int) -> None:
                                               cat=task["cat"], dc=task["dc"], closed=v["closed"], cuts=v["cuts"],
                                               cuts2=v.get("cuts2"), kind=v["kind"])),
             )
+    rep.section("C06.spec_deviation_shared_by_open_tree_and_completion", count=n_shared_spec_deviation,
+                note="not a C06 violation: open tree and completion get the same verdict from evaluate(); see C03",
+                examples=dict(list(sorted(shared_examples.items()))[:20]))
     rep.section("C06.open", **total)
     rep.section("C06.categories", **{k: v for k, v in sorted(per_cat.items())})
     rep.section("C06.open_tree_exceptions", examples=raises_examples[:12], total=total.get("raises", 0))
